@@ -57,7 +57,9 @@ def gen(r, tier, i):
             'arrays': r.choice([None, None, r.choice([0.5, 1.0])]),
             # a process that adds a child to a glob store and, in the same update, writes to a second
             # (branch) port; a census process reports how many children its glob view shows
-            'census': r.choice([None, None, r.choice([0.5, 1.0])])}
+            'census': r.choice([None, None, r.choice([0.5, 1.0])]),
+            # a process whose first-listed port is a glob port wired through a sub-topology
+            'feeder': r.choice([None, None, r.choice([0.5, 1.0])])}
 
 
 def run_grammar(spec, V):
@@ -206,6 +208,18 @@ def run_perm(spec, V):
         def next_update(self, timestep, states):
             return {'report': {'seen': len(states['pool'])}}
 
+    class Feeder(Process):
+        """Moves stock to the agents of a glob port that is wired through a sub-topology."""
+        def ports_schema(self):
+            return {'agents': {'*': {'food': {'_default': 0, '_emit': True}}},
+                    'stock': {'level': {'_default': 100, '_emit': True}}}
+
+        def calculate_timestep(self, states):
+            return self.parameters['ts']
+
+        def next_update(self, timestep, states):
+            return {'agents': {a: {'food': 1} for a in states['agents']}, 'stock': {'level': -len(states['agents'])}}
+
     def once(perm_seed):
         r = random.Random(perm_seed) if perm_seed is not None else None
         procs = {k: A({'pid': int(k[1:]), 'ts': ts, 'flip': bool(r and r.random() < 0.5)}) for k, ts in spec['procs'].items()}
@@ -215,6 +229,8 @@ def run_perm(spec, V):
         if spec.get('census'):
             procs['grower'] = Grower({'ts': spec['census']})
             procs['census'] = Census({'ts': spec['census']})
+        if spec.get('feeder'):
+            procs['feeder'] = Feeder({'ts': spec['feeder']})
         steps = {'s%d' % j: St({'pid': j}) for j in spec['steps']}
         flow = {k: [(d,) for d in deps] for k, deps in spec['flow'].items()}
         topo = {k: ({'S': ('s',)} if k == 'grow' else {'S': ('s',), 'T': ('t',)}) for k in list(procs) + list(steps)}
@@ -222,6 +238,9 @@ def run_perm(spec, V):
             topo['grower'] = {'pool': ('pool',), 'book': ('u', 'book')}
             topo['census'] = {'pool': ('pool',), 'report': ('report',)}
         init = {'s': {'acc': 3}, 't': {'sum2': 1}}
+        if spec.get('feeder'):
+            topo['feeder'] = {'agents': {'_path': ('fed',), '*': {'food': ('food',)}}, 'stock': ('u', 'stock')}
+            init['fed'] = {'a': {'food': 0}, 'b': {'food': 0}}
         if r is not None:
             procs, steps, flow, topo, init = (shuffled(x, r) for x in (procs, steps, flow, topo, init))
             for k in flow:
